@@ -2,7 +2,8 @@
    Statements only; every proof is `exact` of a lemma proved elsewhere (or a computation on a finite table). *)
 From Coq Require Import List Ascii String Arith Bool.
 Import ListNotations.
-From SP Require Import Skel Gen Expected Str PathLex Format FormatParse.
+From SP Require Import Skel Gen Expected Str PathLex Format FormatParse FormatCommand.
+Notation length := List.length.
 
 (* T1: the five regular expressions the model implements by hand are those in the source *)
 Theorem C15_code_conforms :
@@ -24,6 +25,30 @@ Theorem C15_replace_pieces : forall (ob new : str) (ps : list Str.piece),
   brace_free ob -> Forall Str.piece_ok ps ->
   replace_all (ph ob) new (Str.flat ps) = Str.flat (map (subst1 ob new) ps).
 Proof. exact Str.replace_all_pieces. Qed.
+
+(* THE command theorem: for every pattern made of brace-free literals and placeholders of the six kinds (any number of
+   occurrences of the same placeholder), if every placeholder has a value (`replacement` = Ok) and the values are brace free
+   -- which holds for all paths and parameter values over the valid alphabet -- then the iterated global strings.Replace of
+   formatCommand yields exactly the concatenation of the literals and the values, in order *)
+Theorem C15_command : forall (e : env) (ps : list FormatParse.piece) (val : str -> str -> str),
+  Forall piece_ok2 ps ->
+  (forall k rest, In (FormatParse.PhK k rest) ps ->
+     replacement (port_infos (FormatParse.flat ps)) e k rest = Ok (val k rest) /\ brace_free (val k rest)) ->
+  format_command (FormatParse.flat ps) e =
+  Ok (List.concat (map (fun p => match p with FormatParse.Txt u => u | FormatParse.PhK k rest => val k rest end) ps)).
+Proof. exact FormatCommand.format_command_spec. Qed.
+
+(* the modifiers as documented: basename / dirname / %suffix, applied left to right *)
+Theorem C15_modifiers_documented :
+  (forall p, apply_mod p (s2l "basename") = after_last_slash p)
+  /\ (forall p, apply_mod p (s2l "dirname") = before_last_slash p)
+  /\ (forall p suf, find_subst (pct :: suf) = None ->
+        apply_mod p (pct :: suf) = if Nat.ltb (length suf) (length p) && is_suffix suf p then firstn (length p - length suf) p else p)
+  /\ (forall p m ms, apply_mods p (m :: ms) = apply_mods (apply_mod p m) ms).
+Proof.
+  split; [exact FormatCommand.apply_mod_basename|]. split; [exact FormatCommand.apply_mod_dirname|].
+  split; [exact FormatCommand.apply_mod_suffix|exact FormatCommand.apply_mods_cons].
+Qed.
 
 (* the thirteen vectors of TestFormatCommand, reproduced by the model (a finite table, not the unbounded claim) *)
 Definition vectors : list (string * string) :=
@@ -51,5 +76,7 @@ Proof. vm_compute. repeat split; reflexivity. Qed.
 Print Assumptions C15_code_conforms.
 Print Assumptions C15_parse_render.
 Print Assumptions C15_replace_pieces.
+Print Assumptions C15_command.
+Print Assumptions C15_modifiers_documented.
 Print Assumptions C15_test_vectors.
 Print Assumptions C15_missing_fails_examples.
